@@ -5,7 +5,7 @@ From Coq Require Import NArith List Bool.
 Import ListNotations.
 From Coq Require Import ZArith.
 From CXV Require Import Gen.TokTy Gen.ParserTables Parse.Balanced Gen.Blocks Parse.BlocksSM.
-From CXV Require Import Base.Regex Base.Cost Gen.LexRules Lex.PlyLoop Gen.StreamTables Stream.TokBuf Fmt.TokFmt PP.Filters Misc.ReprModel Gen.Schema Parse.Fold Parse.Declarator Parse.DeclSpec Parse.EnumList Parse.BaseClause Parse.NsHeader Parse.Specs Parse.VarStmt.
+From CXV Require Import Base.Regex Base.Cost Gen.LexRules Lex.PlyLoop Gen.StreamTables Stream.TokBuf Fmt.TokFmt PP.Filters Misc.ReprModel Gen.Schema Parse.Fold Parse.Declarator Parse.DeclSpec Parse.EnumList Parse.BaseClause Parse.NsHeader Parse.Specs Parse.VarStmt Parse.FnTail.
 Open Scope N_scope.
 
 Definition nlen {A} (l : list A) : N := N.of_nat (length l).
@@ -497,8 +497,22 @@ Definition run_var_stmt (args : list N) : list N :=
   | [] => [1; 0]
   end.
 
+(* 90: a whole function statement.  Output: 0, name, rest length, then the type (as a function type), then
+   throw (0 | 1 len tokens), noexcept (0 | 1 len tokens), body flag, deleted flag *)
+Definition enc_opt_tks (o : option (list tk)) : list N :=
+  match o with Some v => 1 :: nlen v :: enc_tks v | None => [0] end.
+Definition run_fn_stmt (args : list N) : list N :=
+  let toks := dec_tks args in
+  match fn_stmt (4 * length toks + 8) toks with
+  | DOk (nm, rt, ps, va, tl, rest) =>
+      let e := enc_ty (TFn rt ps va) in
+      0 :: nm :: nlen rest :: nlen e :: e ++ enc_opt_tks (t_throw tl) ++ enc_opt_tks (t_noexcept tl) ++ [bN (t_body tl); bN (t_deleted tl)]
+  | DErr e => [1; e]
+  end.
+
 Definition run_case (cmd : N) (args : list N) : list N :=
   match cmd, args with
+  | 90, _ => run_fn_stmt args
   | 89, _ => run_var_stmt args
   | 88, _ => run_specs args
   | 87, _ => run_ns_header args
